@@ -91,6 +91,15 @@ claim('C13', 'exploration', 'stateless exploration of interleavings of all ten r
       'NOT decided here: data races (plain memory accesses between two gates are atomic under the cooperative scheduler; no free-running -race pass is registered) and the fan-out/join of FullNode.Run in node/full.go (libp2p cannot run in a bubble; the loops are started by the harness exactly as Run starts them). Trusted: synctest, doubles; after the stop request scheduling is canonical.',
       'DESIGN.md section 5 C13', 'explore+sched')
 
+claim('C11', 'fault_enumeration', 'exhaustive enumeration of inject/reap/produce/restart action sequences with a crash before every durable write, on the real Reaper, real single sequencer and real production step over one write log',
+      'One logging datastore serves node store, reaper seen-set and sequencer queue (as in the test app); every action sequence of depth 6/8 over {inject a, inject b, inject a again, reap, produce, clean restart} with a crash choice before every durable write (<=1 / <=2 crashes) and a reboot of all three components on the exact image, followed by a crash-free drain; every transaction the reaper obtained must be in a committed block, batches appear in release order, no double inclusion in crash-free histories, refused hand-offs are retried.',
+      'Trusted: mempool/executor double (at most one entry per byte string), datastore contract, virtual time (the single sequencer stamps batches with time.Now()); the timestamp-regression drop is not reachable with a monotone clock.',
+      'DESIGN.md section 5 C11', 'explore')
+claim('C17', 'exploration', 'exhaustive grid enumeration of notification instants x interval ratios x production durations against the real AggregationLoop under virtual time',
+      'The real AggregationLoop (lazy and normal mode) runs in a synctest bubble with the production function replaced through the package\'s own seam by a recorder taking a virtual duration d; block:idle intervals {1:1,1:2,1:3,2:3} (idle interval also +-1 ns), d in {0, 1/2, 1, 3/2, 3/2-1ms} block intervals, every set of 0-3 (quick) / 0-4 (thorough) notification instants on a quarter-interval grid at t-1ns and t+1ns up to two idle intervals, plus a variant where the real Reaper produces the notification. Oracle on the recorded start times: starts >= one block interval apart; a notification is followed by a start within one block interval after max(notification, end of the in-flight production); gaps <= idle interval (or d + block interval when d >= idle); normal mode period and independence from notifications.',
+      'Trusted: synctest virtual time; runtime ties when both timers are re-armed to the same instant are run 4 times each (both select outcomes must satisfy the oracle).',
+      'DESIGN.md section 5 C17', 'enumeration')
+
 NOT_YET = "check not built yet in this session (work in progress, see DESIGN.md section 10 for the order of work)"
 
 checks = []
